@@ -339,5 +339,34 @@ def pathsCover (w : Wiring) : Bool :=
     | Option.none => false) &&
   Role.all.all fun r => paths.any fun p => !(stepsFor p.1 r).isEmpty
 
+/-! ## 4. Support for the examples of `Props/C15.lean` -/
+
+/-- only points (class 3) and anchors (class 8) customised -/
+def cfgA : Cfg := fun r => if r = .point then some 3 else if r = .anchor then some 8 else Option.none
+
+/-- everything customised with class 1 -/
+def cfgAll : Cfg := fun _ => some 1
+
+/-- the wiring with site `id` rewritten by `f` (a seeded fault) -/
+def mapSite (w : Wiring) (id : String) (f : Site → Site) : Wiring :=
+  { w with sites := w.sites.map fun s => if s.id = id then f s else s }
+
+/-- `anchor = Anchor(...)` instead of `self._anchorClass(...)` -/
+def hardcode (c : CName) (s : Site) : Site := { s with cls := .hard c }
+
+/-- keyword `k` fed from another source -/
+def rewireKw (k : Ident) (src : Src) (s : Site) : Site :=
+  { s with kwargs := s.kwargs.map fun kv => if kv.1 = k then (kv.1, src) else kv }
+
+/-- keyword `k` no longer passed -/
+def dropKw (k : Ident) (s : Site) : Site := { s with kwargs := s.kwargs.filter fun kv => kv.1 ≠ k }
+
+/-- the certificate computed for `w` is rejected -/
+def rejects (w : Wiring) : Bool := !check w (canonObjs w)
+
+/-- the class site `site` uses in the object reached from the font along `via` -/
+def classVia (w : Wiring) (cfg : Cfg) (via : List String) (site : String) : Option Val :=
+  (reachIds w cfg via).bind fun o => (w.site site).bind (classAt w o)
+
 end Classes
 end DefconModel
